@@ -98,6 +98,8 @@ def make_param(eng, kind, hint):
         return AssignVal("spin", "list")
     if kind == "none":
         return None
+    if kind.startswith("class:"):
+        return ClassRef(eng.db.classes[kind[6:]])
     if kind.startswith("const:"):
         return ast.literal_eval(kind[6:])
     if kind.startswith("tuple:"):
@@ -171,9 +173,7 @@ def _apply_contract(eng, c, env, cl):
     for target, expr in c.effects:
         effs.append((target, eng.eval_spec(expr, env, fr)))
     for name in c.modifies:
-        o = env.get(name)
-        if o is not None:
-            eng.havoc_object(o, name)
+        _havoc_path(eng, env, name)
     post_env = dict(env)
     kind = c.returns(env, eng) if callable(c.returns) else c.returns
     result = None
@@ -217,6 +217,44 @@ def _assign_effect(eng, target, val, env):
         eng.write_attr(env[node.value.id], node.attr, val)
         return
     raise VerifBug("effect target %s" % target)
+
+
+def _havoc_path(eng, env, path):
+    parts = path.split(".")
+    o = env.get(parts[0])
+    if o is None:
+        return
+    if len(parts) == 1:
+        eng.havoc_object(o, parts[0])
+        return
+    for a in parts[1:-1]:
+        o = o.attrs[a]
+    a = parts[-1]
+    if a not in o.attrs:
+        return
+    v = o.attrs[a]
+    if isinstance(v, (DictVal, SetVal, PObj)):
+        eng.havoc_object(v, path.replace(".", "_"))
+    elif v is None or isinstance(v, str):
+        pass
+    else:
+        eng.write_attr(o, a, eng.havoc_value(v, path.replace(".", "_")))
+
+
+def _path_keys(eng, env, path):
+    parts = path.split(".")
+    o = env.get(parts[0])
+    if o is None:
+        return set()
+    if len(parts) == 1:
+        return set(eng.snapshot([o]).keys())
+    for a in parts[1:-1]:
+        o = o.attrs[a]
+    a = parts[-1]
+    keys = {(id(o), a)}
+    if a in o.attrs:
+        keys |= set(eng.snapshot([o.attrs[a]]).keys())
+    return keys
 
 
 Engine.apply_contract = lambda self, c, env, cl: _apply_contract(self, c, env, cl)
@@ -370,9 +408,7 @@ def _run_path(eng, c, cl, inst, cls):
     # frame: everything reachable from the parameters that is neither an effect target nor in modifies is unchanged
     modified_ok = set()
     for name in c.modifies:
-        o = env.get(name)
-        for key in eng.snapshot([o]):
-            modified_ok.add(key)
+        modified_ok |= _path_keys(eng, env, name)
     fgoal = []
     for key, oldv in snap.items():
         if key in covered or key in modified_ok:
